@@ -66,6 +66,17 @@ package model
 //@   requires 0 <= id && id < len(v.Values)
 //@   ensures result == v.Values[id]
 
+// ---- special tokens ----
+// "text containing the literal form of a special token encodes that occurrence to the special
+// token's id": the special tokens of a vocabulary are its entries of type CONTROL. Any other
+// entry registered as special is cut out of ordinary text and decoded as its raw bytes.
+//@ extern func slices.Contains
+//@   pure
+//@   ensures result <==> exists j int :: 0 <= j && j < len(s) && s[j] == v
+//@ func (*Vocabulary).SpecialVocabulary$1
+//@   requires len(v.Types) == len(v.Values)
+//@   assert-at call append : v.Types[i] == TOKEN_TYPE_CONTROL
+
 // The merge loops (BPE: Encode$1 after the byte loop and its closure pairwise = Encode$1$1;
 // SentencePiece: Encode and its closure Encode$1) are swept for panics without functional
 // contracts; the index obligations that depend on what the library priority queue
@@ -83,6 +94,12 @@ package model
 //@   assert-at call append #8 : 0 <= id && id < len(spm.vocab.Values)
 //@   assert-at call append #10 : 0 <= id && id < len(spm.vocab.Values)
 //@   assert-at call append #11 : 0 <= unknownID && unknownID < len(spm.vocab.Values)
+// Decode turns every token spelled <0xNN> (6 bytes, prefix "<0x", suffix ">") into the byte NN, so
+// Encode must not emit such a token for a piece of text that merely reads "<0xNN>"
+//@   assert-at call append #8 : !(len(text) == 6 && shasprefix(text, "<0x") && shassuffix(text, ">"))
+//@   assert-at call append #10 : !(len(token) == 6 && shasprefix(token, "<0x") && shassuffix(token, ">"))
+// Decode turns every U+2581 into a space, so text must not contain U+2581 itself
+//@   assert-at call ReplaceAll #1 : !scontains(frag.value, spmWhitespaceSep)
 
 //@ func (SentencePieceModel).Decode
 //@   requires forall k int :: 0 <= k && k < len(ids) ==> 0 <= ids[k] && ids[k] < len(spm.vocab.Values)
